@@ -74,3 +74,10 @@ Example C14_replace_example :
   let a := mkAcct [b3; b2; g1] 1 in
   wf a /\ add false a c2 = (mkAcct [c2; g1] 1, ROk) /\ snd (add false (mkAcct [c2; g1] 1) b2) = RErrRatio.
 Proof. cbv zeta. split; [|split; vm_compute; reflexivity]. unfold wf. cbn. repeat split; lia. Qed.
+
+(* the rule the theorems above are about is the code: [higher_priority] equals chain.higherPriority as translated from
+   chain/account_pool.go by go2coq on every run (uint64 products with wrap; bytes.Compare of the hashes as its result) *)
+Theorem C14_priority_rule_is_the_source : forall a b,
+  higher_priority a b =
+  priority_code (ZV.gen.Pure.higherPriority (btotal a) (bbase b) (btotal b) (bbase a) (bytes_compare (bhash a) (bhash b))).
+Proof. exact higher_priority_is_source. Qed.
